@@ -141,6 +141,9 @@ func (sc *scratch) offer(v1 []types.Transaction, v2 []types.V2Transaction, opt o
 		return nil, false
 	}
 	w.postValidate(nil, snap, sc.s, b, bs, verr)
+	if w.cfg.Profile == "C09" && w.tape.Choose(4) == 0 {
+		w.concRecord(sc.s, b, bs, w.genesis.Timestamp, verr, fmt.Sprintf("probe block at height %d", sc.child()))
+	}
 	if verr == nil {
 		// any block that passes validation can be applied and reverted
 		if p := guard(func() {
